@@ -213,7 +213,7 @@ fn seeds() -> Vec<(&'static str, Prog)> {
 }
 
 pub fn generate(seed: u64, n: usize, thorough: bool, _corpus: Option<&str>) -> Vec<Case> {
-    let mut r = Rng::new(seed);
+    let mut r = Rng::new(crate::pre_gen::spread_seed(seed));
     let mut cases = vec![];
     for (tag, p) in seeds() { cases.push(check_program(&p, vec![format!("seed:{}", tag)], "seeds")); }
     for i in 0..n {
